@@ -595,8 +595,12 @@ const T0_MS: u64 = 1_790_000_000_000;
 /// One execution with the ambient per-thread state a fresh thread of a fresh process would have
 /// (default BUGGIFY config, zeroed BUGGIFY statistics). `ambient_off` instead leaves a *disabled*
 /// BUGGIFY config behind, as a previous harness on the same thread might.
-fn execute(c: &Case, clock_ms: Option<u64>, ambient_off: bool) -> Dump {
-    buggify::set_config(if ambient_off { FaultConfig::disabled() } else { FaultConfig::default() });
+fn execute(c: &Case, clock_ms: Option<u64>, ambient_off: bool) -> Dump { execute_with(c, clock_ms, ambient_off, true) }
+
+/// `clean` = false: the thread's BUGGIFY context is taken as the previous execution left it and is left behind
+/// as this execution leaves it (what happens when two harnesses run one after the other on one thread).
+fn execute_with(c: &Case, clock_ms: Option<u64>, ambient_off: bool, clean: bool) -> Dump {
+    if clean { buggify::set_config(if ambient_off { FaultConfig::disabled() } else { FaultConfig::default() }); }
     buggify::reset_stats();
     match clock_ms { Some(ms) => { verif_clock::set(ms); verif_clock::set_elapsed_skew(ms.saturating_sub(T0_MS).min(60_000)); } None => { verif_clock::clear(); verif_clock::set_elapsed_skew(0); } }
     let f = HARNESSES[c.h].run;
@@ -616,7 +620,7 @@ fn execute(c: &Case, clock_ms: Option<u64>, ambient_off: bool) -> Dump {
     let st = buggify::get_stats();
     let keys: std::collections::BTreeSet<&String> = st.checks.keys().chain(st.triggers.keys()).collect();
     for k in keys { d.put(STATS, format!("{} checks={} triggers={}", k, st.checks.get(k).copied().unwrap_or(0), st.triggers.get(k).copied().unwrap_or(0))); }
-    buggify::set_config(FaultConfig::default());
+    if clean { buggify::set_config(FaultConfig::default()); }
     buggify::reset_stats();
     d
 }
@@ -770,9 +774,30 @@ impl Property for C20 {
                 limit = s;
             }
         }
+        let mut found_any: Option<()> = None;
         if let Some((s, msg)) = found {
             rep.log(ctx.trace, || msg.clone());
             rep.violate(format!("C20/{}/{}", who, class(s)), msg);
+            found_any = Some(());
+        }
+
+        // ---- a different harness ran, and was dropped, first on this thread; whatever it left in the thread's BUGGIFY
+        // context stays (a fresh thread starts from FaultConfig::default(), and every harness of this tree leaves fault
+        // injection enabled, so on this tree the predecessor makes no difference)
+        {
+            let h2 = (h + 1 + (seed as usize % (HARNESSES.len() - 1))) % HARNESSES.len();
+            let other = Case { h: h2, preset: (seed as usize >> 8) % HARNESSES[h2].presets.len(), seed: seed ^ 0xa5a5, size: HARNESSES[h2].sizes[0] };
+            buggify::set_config(FaultConfig::default());
+            let _ = execute_with(&other, Some(T0_MS), false, false);
+            let b = execute_with(&case, Some(T0_MS), false, false);
+            buggify::set_config(FaultConfig::default());
+            rep.fault("another_harness_ran_first_on_this_thread");
+            rep.evals += 1;
+            if let Some((s, i, x, y)) = a.first_diff(&b, limit) {
+                let msg = format!("{} executed on a thread on which harness '{}' had just run (and been dropped) differs from its execution on a fresh thread: section '{}' line {}: fresh «{}» vs after «{}» ({}) - something the earlier harness left behind on the thread (BUGGIFY configuration or statistics, a thread-local) decides the outcome", spec, HARNESSES[h2].name, SECTIONS[s], i, cut(&x, 300), cut(&y, 300), around(&x, &y));
+                rep.log(ctx.trace, || msg.clone());
+                if found_any.is_none() { found_any = Some(()); rep.violate(format!("C20/{}/depends-on-predecessor-on-thread", who), msg); }
+            }
         }
 
         // ---- ambient BUGGIFY state left by an earlier harness (informational, never a violation)
